@@ -246,6 +246,10 @@ fn finalize_synchronization(
             .map(|job| (job, UnassignmentInfo::Unknown)),
     );
 
+    // NOTE: keep a job only in one list (e.g. required conditional job of original solution is ignored in a new one)
+    let unassigned = &new_insertion_ctx.solution.unassigned;
+    new_insertion_ctx.solution.ignored.retain(|job| !unassigned.contains_key(job));
+
     new_insertion_ctx.restore();
 
     finalize_insertion_ctx(new_insertion_ctx);
